@@ -97,6 +97,7 @@ def prop(case):
     run = H.Runner(version, vlevel=vlevel)
     nt = False
     n_fail = 0
+    kinds = {}
     for step, op in enumerate(case["ops"]):
         if op[0] != "fail":
             try:
@@ -116,6 +117,7 @@ def prop(case):
         after = full_obs(run.gfa)
         atext = str(run.gfa)
         n_fail += 1
+        kinds["refused:%s%s" % (op[-1], "@v0" if vlevel == 0 else "")] = True
         inst = getattr(run, "last_instance", None)
         if op[1] == "add_instance" and inst is not None:
             run.last_instance = None
@@ -171,7 +173,7 @@ def prop(case):
     if got != want:
         raise Violation("final-content", "after the history (failing calls caught) content differs from the model: %s\n%s" % (
             G.counter_diff(want, got), run.model.text()))
-    return {"nt": nt and n_fail > 0, "n_fail": min(n_fail, 5), "version": version}
+    return dict(kinds, nt=nt and n_fail > 0, n_fail=min(n_fail, 5), version=version)
 
 
 # ---------------------------------------------------------------- failing call builders
@@ -196,7 +198,7 @@ def corrupt(r, line_plain, version):
     return rec.text() + "\tzz:i:1\tzz:i:2", "duplicate_tag"
 
 
-def build_fail(st, r):
+def build_fail(st, r, lazy=False):
     """A call built to fail in the current model state, or None."""
     version = st.version
     m = st.model
@@ -204,13 +206,26 @@ def build_fail(st, r):
     fresh = [n for n in ["f1", "f2", "f3", "f4"] if n not in names and n not in m.undefined_mentions()]
     fa = fresh[0] if fresh else "zz1"
     fb = fresh[1] if len(fresh) > 1 else "zz2"
-    k = gen.choice(r, [0, 1, 1, 1, 2, 3, 4, 5, 6, 7, 8, 9, 10, 10, 11, 12, 13, 13, 14, 14, 15, 16, 17])
+    k = gen.choice(r, [0, 1, 1, 1, 2, 3, 4, 5, 6, 7, 8, 9, 10, 10, 11, 12, 13, 13, 14, 14, 15, 16, 17, 18])
+    if lazy and version == "gfa2" and gen.chance(r, 0.3):
+        k = 18
+    if k == 18 and version == "gfa2":
+        # an ordered group whose second item is not an oriented identifier: refused when the line is parsed,
+        # or (vlevel 0) only when its items are resolved, after a placeholder for the first item was made;
+        # the line may be the continuation of a group which exists
+        groups = [M.name_of(x) for x in m.recs if x.rt == "O" and M.name_of(x) is not None]
+        nm = gen.choice(r, groups) if groups and gen.chance(r, 0.7) else fb
+        bad = gen.choice(r, ["b", "A", "2"])
+        return ["fail", "add", "O\t%s\t%s+ %s" % (nm, fa, bad), "ordered_item_without_orientation"]
     if k == 15:
         # a further value of a header tag that the tag's datatype cannot hold (zv is i, zx is Z and multi-valued)
         args = gen.choice(r, [["zv", "abc"], ["zv", "1x", "i"], ["zx", "a\tb"], ["TS", "x"], ["zv", 2.5]])
         return ["fail", "header_add", args, "header_add_wrong_kind"]
     if k == 16 and m.segment_names():
         a = gen.choice(r, m.segment_names())
+        pend = sorted(n for n in m.undefined_mentions() if n in H.POOL["E"] + H.POOL["G"])
+        if version == "gfa2" and pend and gen.chance(r, 0.6):
+            fa = gen.choice(r, pend)  # an identifier that a group is already waiting for
         if version == "gfa1" and "," in a:
             return None
         text = gen.choice(r, ["L\t%s\t+\t%s\t-\t*\tID:Z:%s" % (fa, a, fa), "P\t%s\t%s+,%s+\t*" % (fa, a, fa)]) if version == "gfa1" else \
@@ -349,8 +364,13 @@ def build_fail(st, r):
     return ["fail", "header", "H\tzw:i:5\tzx:i:3", "header_datatype_clash"]
 
 
+LAZY_KINDS = ("duplicate_id", "duplicate_id_instance", "group_tag_conflict", "group_named_like_other", "same_link_again",
+              "same_link_again_instance", "other_version", "other_version_instance", "self_mention", "multiply_unknown_policy",
+              "unknown_name", "readonly_field", "ordered_item_without_orientation")
+
+
 def gen_case(r, version):
-    vlevel = gen.choice(r, [1, 1, 2, 3])
+    vlevel = 0 if gen.fair(r, 0.2) else gen.choice(r, [1, 1, 2, 3])
     st_ = H.GenState(version)
     ops = []
     if gen.chance(r, 0.7):
@@ -373,7 +393,7 @@ def gen_case(r, version):
     ops.append(["header_ok", "H\tzx:Z:second"])
     for _ in range(r.randint(3, 14)):
         if gen.chance(r, 0.55):
-            f = build_fail(st_, r)
+            f = build_fail(st_, r, lazy=(vlevel == 0))
             if f is None:
                 continue
             if f[-1] in ("invalid_value_vlevel3", "invalid_new_tag_vlevel3") and vlevel < 3:
@@ -382,6 +402,8 @@ def gen_case(r, version):
                 continue  # (the name of the kind is historical: an invalid name is refused from vlevel 1 on, D79)
             if f[-1] in ("header_datatype_clash", "header_add_wrong_kind") and vlevel < 2:
                 continue
+            if vlevel == 0 and f[-1] not in LAZY_KINDS:
+                continue  # (most malformed input is, as documented, not looked at without validation)
             ops.append(f)
         else:
             x = r.random()
